@@ -1,5 +1,6 @@
 import NimaVerif.Lemmas.Trivia
 import NimaVerif.Lemmas.FragNFParse
+import NimaVerif.Lemmas.FragFlat
 import NimaVerif.Gen.Trivia
 /-!
 # C18 — rebuilt text is in the formatter's spacing normal form (trivia algebra)
@@ -265,10 +266,18 @@ acceptable separator for the second one" (`sepOk`: `""`, `" "`, or one line brea
 followed by an indentation run; nothing at all in front of `;`), trailing whitespace. -/
 
 /-- SPACING NORMAL FORM. For every well-formed file of the fragment in which no one-line container
-    holds a comment in front of an item (`inlineCleanB`, see `cex_block_comment_after_opener`), the
-    rebuilt file has no whitespace before its first token, every separator is in the formatter's
-    normal form, `;` is attached, and the file ends with at most one blank line. -/
+    holds a comment in front of an item (`Src.beforeFlatB`: the items of a container without a line
+    break have empty leading trivia; see `cex_block_comment_after_opener`), the rebuilt file has
+    no whitespace before its first token, every separator is in the formatter's normal form, `;`
+    is attached, and the file ends with at most one blank line. -/
 theorem frag_spacing_nf (f : File) (s : Src) (hwf : f.wf = true) (_hws : f.noLeadingWs = true)
+    (hp : f.parse = .ok s) (hclean : s.beforeFlatB = true) : (summ s.rebuildP).fileOk = true :=
+  file_nf_flat f s hwf hp hclean
+
+/-- the same with the exclusion as the render-side induction uses it (`inlineCleanB` additionally
+    asks that every item's trailing trivia in a one-line container ends with a comment, which
+    `Lemmas/FragFlat.lean` proves for everything `fromCst` builds) -/
+theorem frag_spacing_nf_clean (f : File) (s : Src) (hwf : f.wf = true) (_hws : f.noLeadingWs = true)
     (hp : f.parse = .ok s) (hclean : s.inlineCleanB = true) : (summ s.rebuildP).fileOk = true :=
   file_nf f s hwf hp (src_inlineClean hclean)
 
@@ -328,7 +337,7 @@ theorem cex_block_comment_after_opener : ¬ frag_spacing_nf_full := by
 
 example : openerCommentFile.flatten = "{ /* c */ a = 1; }".toList := by decide
 example : openerCommentFile.roundtrip = .ok "{   /* c */\na = 1; }".toList := by decide
-example : (match openerCommentFile.parse with | .ok s => s.inlineCleanB | _ => true) = false := by decide
+example : (match openerCommentFile.parse with | .ok s => s.beforeFlatB | _ => true) = false := by decide
 
 /-- a file with comments in many gaps that satisfies the hypotheses -/
 def fragSample : File :=
@@ -340,7 +349,7 @@ def fragSample : File :=
 
 example : fragSample.flatten = "# h\n\n\n{\n\ta /* n */  =\n\n      [ 1\t] ; # e\n\n\n# o\n\n\n}\n\n\n".toList := by decide
 example : fragSample.wf = true ∧ fragSample.noLeadingWs = true := by decide
-example : (match fragSample.parse with | .ok s => s.inlineCleanB | _ => false) = true := by decide
+example : (match fragSample.parse with | .ok s => s.beforeFlatB | _ => false) = true := by decide
 example : fragSample.roundtrip = .ok "# h\n\n{\n  a =\n      /* n */\n\n      [ 1 ]; # e\n\n  # o\n\n}\n\n".toList := by decide
 
 end Fragment
